@@ -272,6 +272,9 @@ pub fn bfs_one(kind: &'static str, wbits: usize, borrowed: bool, init: &[u128], 
     let cfg = format!("{}/w{}/{}", kind, wbits, if borrowed { "borrowed" } else { "owned" });
     out.cov.configs.insert(cfg.clone());
     let mut seen: HashMap<(String, MState), ()> = HashMap::new();
+    // distinct MODEL states: this is what is compared with the second engine (the number of distinct
+    // concrete keys may legitimately differ if the implementation carries extra internal state)
+    let mut mstates: std::collections::HashSet<MState> = std::collections::HashSet::new();
     let mut q: VecDeque<(Vec<Op>, MState)> = VecDeque::new();
     let s0 = MState { data: init.to_vec(), cur: 0 };
     let (_, fin, key) = run_real(kind, wbits, borrowed, init, &[]);
@@ -287,6 +290,7 @@ pub fn bfs_one(kind: &'static str, wbits: usize, borrowed: bool, init: &[u128], 
         });
     }
     seen.insert((key, s0.clone()), ());
+    mstates.insert(s0.clone());
     q.push_back((vec![], s0));
     let mut sampled = false;
     while let Some((path, ms)) = q.pop_front() {
@@ -335,6 +339,7 @@ pub fn bfs_one(kind: &'static str, wbits: usize, borrowed: bool, init: &[u128], 
                 }
                 continue;
             }
+            mstates.insert(mnext.clone());
             if seen.insert((key, mnext.clone()), ()).is_none() {
                 q.push_back((p2, mnext));
             }
@@ -344,7 +349,7 @@ pub fn bfs_one(kind: &'static str, wbits: usize, borrowed: bool, init: &[u128], 
             out.cov.sample(json!({"config": cfg, "init": init.iter().map(|x| x.to_string()).collect::<Vec<_>>(), "history": path, "model_state": format!("{:?}", ms)}));
         }
     }
-    seen.len()
+    mstates.len()
 }
 
 // ---- the same system under stateright (second engine)
@@ -479,7 +484,7 @@ pub fn c13(ctx: &Ctx) -> (CheckMeta, Outcome) {
     let meta = CheckMeta {
         property: "C13".into(),
         level: "model_checking".into(),
-        rule: "explicit-state BFS to the fixpoint over the REAL objects (MemWordReader zero-extended and strict, MemWordWriterSlice, MemWordWriterVec; word types u8..u128; owned and borrowed storage), rebuilt by replaying the shortest history; initial arrays: every array of length 0..=3 (thorough 0..=4) over the letters {0, 1, MAX}; operations read_word, write_word(letter), word_pos, set_word_pos(0..=len+2, 2^40 and 7 far positions with high bits set + 0..=len+1), len; one long history of 300 000 (thorough 5 000 000) reads past the end of the zero-extended reader; vector growth capped at 5 words and zero-extended reads at len+3 to close the space; every return value, the final contents (into_inner / the borrowed storage) and the cursor (word_pos) after every transition vs a Vec+cursor model (errors leave the cursor unchanged); the same transition system is run under stateright's BFS checker with real objects rebuilt from state snapshots and the unique state counts of the two engines must agree".into(),
+        rule: "explicit-state BFS to the fixpoint over the REAL objects (MemWordReader zero-extended and strict, MemWordWriterSlice, MemWordWriterVec; word types u8..u128; owned and borrowed storage), rebuilt by replaying the shortest history; initial arrays: every array of length 0..=3 (thorough 0..=4) over the letters {0, 1, MAX}; operations read_word, write_word(letter), word_pos, set_word_pos(0..=len+2, 2^40 and 7 far positions with high bits set + 0..=len+1), len; one long history of 300 000 (thorough 5 000 000) reads past the end of the zero-extended reader; vector growth capped at 5 words and zero-extended reads at len+3 to close the space; every return value, the final contents (into_inner / the borrowed storage) and the cursor (word_pos) after every transition vs a Vec+cursor model (errors leave the cursor unchanged); the same transition system is run under stateright's BFS checker with real objects rebuilt from state snapshots and the number of distinct model states reached by the two engines must agree".into(),
         assumptions: vec!["cursor values at usize::MAX are outside the alphabet (as in the library's own fuzz harness)".into()],
     };
     (meta, out)
